@@ -41,6 +41,10 @@ pub enum Step {
     Df11(u32),
     Df17(u32, u64),          // header CA, ME
     CommB(bool, u32, u64, String), // df21?, 13-bit code, MB, generator label
+    /// DF18: its 3-bit field after the DF is a control field, not a transponder capability
+    Df18(u32, u64),
+    /// a 112-bit frame of another format (DF19, 22..31) whose bits 9-32 carry the address and bits 33-88 a register
+    OtherLong(u32, u64, String),
 }
 
 #[derive(Clone, Debug, Serialize, Deserialize, PartialEq, Eq, Hash)]
@@ -55,6 +59,14 @@ fn frame_of(s: &Step) -> Frame {
         Step::Df17(ca, me) => bits::es(17, *ca, ME, *me),
         Step::CommB(d21, code, mb, _) => {
             if *d21 { bits::df21(ME, *code, *mb, 0) } else { bits::df20(ME, *code, *mb, 0) }
+        }
+        Step::Df18(cf, me) => bits::es(18, *cf, ME, *me),
+        Step::OtherLong(df, mb, _) => {
+            let mut f = Frame::long();
+            f.set(1, 5, *df as u64);
+            f.set(9, 32, ME as u64);
+            f.set(33, 88, *mb);
+            f
         }
     }
 }
@@ -100,6 +112,14 @@ fn mb_strategy() -> BoxedStrategy<(u64, String)> {
         1 => (gen::r50_plausible(), 0usize..5).prop_map(|(r, k)| { let mut m = gen::mb50(&r); let (a, b) = [(2, 11), (13, 23), (25, 34), (36, 45), (47, 56)][k]; mb_set(&mut m, a, b, 0); (m, "bds50_field_zero".to_string()) }),
         1 => (gen::r60_plausible(), 0usize..5).prop_map(|(r, k)| { let mut m = gen::mb60(&r); let (a, b) = [(2, 12), (14, 23), (25, 34), (36, 45), (47, 56)][k]; mb_set(&mut m, a, b, 0); (m, "bds60_field_zero".to_string()) }),
         1 => (r40_full(), 0usize..3).prop_map(|(r, k)| { let mut m = gen::mb40(&r); let (a, b) = [(2, 13), (15, 26), (28, 39)][k]; mb_set(&mut m, a, b, 0); (m, "bds40_field_zero".to_string()) }),
+        // satisfies the rules of 1,7 (bit 7, bits 29-56 zero) and of 4,0 (status bits 1, 14, 27, fields non-zero) at once
+        1 => (1u64..4096, 1u64..4096).prop_map(|(mcp, fms)| {
+            let mut m = 0u64;
+            mb_set(&mut m, 1, 1, 1); mb_set(&mut m, 2, 13, mcp | 0x40); // bit 7 lies inside the MCP field
+            mb_set(&mut m, 14, 14, 1); mb_set(&mut m, 15, 26, fms);
+            mb_set(&mut m, 27, 27, 1); mb_set(&mut m, 28, 28, 1);
+            (m, "bds17_and_40".to_string())
+        }),
         3 => any::<u64>().prop_map(|f| (f & ((1u64 << 56) - 1), "random".to_string())),
         1 => Just((0u64, "zero".to_string())),
     ]
@@ -111,6 +131,8 @@ fn step_strategy() -> BoxedStrategy<Step> {
         3 => prop_oneof![3 => 4u32..8, 2 => 0u32..4].prop_map(Step::Df11),
         2 => (0u32..8, alphabet::me_any()).prop_map(|(ca, me)| Step::Df17(ca, me)),
         12 => (any::<bool>(), prop_oneof![gen::ac13_valid(), 0u32..8192], mb_strategy()).prop_map(|(d, code, (mb, label))| Step::CommB(d, code, mb, label)),
+        1 => (0u32..8, alphabet::me_any()).prop_map(|(cf, me)| Step::Df18(cf, me)),
+        1 => (prop_oneof![Just(19u32), 22u32..32], mb_strategy()).prop_map(|(df, (mb, label))| Step::OtherLong(df, mb, label)),
     ]
     .boxed()
 }
@@ -244,6 +266,9 @@ pub fn soundness(m: &Model, mb: u64, before: &Snap, after: &Snap, frame: &Frame)
         return Err(format!("one reply changed two register groups: {} and {} {}", GROUP_NAMES[changed[0]], GROUP_NAMES[changed[1]], ctx));
     }
     let g = changed[0];
+    if g <= 2 && is_bds17(mb).is_some() {
+        return Err(format!("{} data changed ({} -> {}) although the MB field is a BDS 1,7 capability report, which takes precedence {}", GROUP_NAMES[g], gb[g], ga[g], ctx));
+    }
     match g {
         0 => {
             if !m.relaxed && m.adv[0] == Tri::No {
@@ -417,6 +442,22 @@ fn check(h: &Hist, stats: &mut Stats) -> Result<(), String> {
         match s {
             Step::Df11(ca) => m.on_df11(*ca),
             Step::Df17(ca, _) => m.on_df17(*ca),
+            Step::Df18(..) => {
+                // a DF18 frame carries no transponder capability: the Comm-B groups must not move and the gate model is untouched
+                if let Some(b) = &before {
+                    let (gb, ga) = (group_vals(b), group_vals(&after));
+                    if let Some(g) = (0..6).find(|&g| g != 1 && g != 2 && g != 3 && gb[g] != ga[g]) {
+                        return Err(format!("step {}: DF18 frame {} changed {} data: {} -> {}", i, f.hex(), GROUP_NAMES[g], gb[g], ga[g]));
+                    }
+                }
+            }
+            Step::OtherLong(df, mb, _) => {
+                let b = before.clone().unwrap_or_else(default_snap);
+                let (gb, ga) = (group_vals(&b), group_vals(&after));
+                if let Some(g) = (0..6).find(|&g| gb[g] != ga[g]) {
+                    return Err(format!("step {}: a DF{} frame {} (not a Comm-B reply) changed {} data: {} -> {} [bits 33-88 {:014X}]", i, df, f.hex(), GROUP_NAMES[g], gb[g], ga[g], mb));
+                }
+            }
             Step::CommB(_, _, mb, label) => {
                 let created = before.is_none();
                 let b = before.clone().unwrap_or_else(default_snap);
@@ -469,7 +510,7 @@ fn run(c: &mut Ctx) {
             c.class_n("gate_undetermined_steps", st.maybe_gate);
             c.excluded_n("valid register also satisfies (leniently) an earlier register: shadowed, not asserted", st.shadowed);
             if r.is_ok() && c.want_sample() && !st.completeness.is_empty() {
-                c.sample(json!({"opts": h.opts.label(), "steps": h.steps.iter().map(|s| match s { Step::Df11(ca) => format!("DF11 CA={}", ca), Step::Df17(ca, me) => format!("DF17 CA={} ME={:014X}", ca, me), Step::CommB(d, _, mb, l) => format!("DF{} MB={:014X} ({})", if *d {21} else {20}, mb, l) }).collect::<Vec<_>>()}));
+                c.sample(json!({"opts": h.opts.label(), "steps": h.steps.iter().map(|s| match s { Step::Df11(ca) => format!("DF11 CA={}", ca), Step::Df17(ca, me) => format!("DF17 CA={} ME={:014X}", ca, me), Step::CommB(d, _, mb, l) => format!("DF{} MB={:014X} ({})", if *d {21} else {20}, mb, l), Step::Df18(cf, me) => format!("DF18 CF={} ME={:014X}", cf, me), Step::OtherLong(df, mb, l) => format!("DF{} bits33-88={:014X} ({})", df, mb, l) }).collect::<Vec<_>>()}));
             }
         }
         r
